@@ -73,17 +73,70 @@ Proof. reflexivity. Qed.
 
 (* the headline: the compiler model never panics, on any schema (no guard, not even wf) *)
 Theorem compiler_model_total : forall a, compile16 a <> VPanic.
-Proof. exact (compile16_total_proved builder_panics_recovered). Qed.
+Proof. exact (compile16_total_flag builder_panics_recovered). Qed.
 
 (* within the guards a well-formed schema is compiled; and whatever is handed out builds *)
 Theorem compiler_model_compiles_within_guards :
   forall a, wf a = true -> lexical a = true -> no_unique_collision a Go = true -> guards (compile_items a Go) = true ->
   compile16 a = VCompiled (compile_items a Go) /\ builder_valid (compile_items a Go) = true.
-Proof. exact (fun a => compile16_compiles_proved parser_recovers_builder_panics a max_ident_len_as_modelled). Qed.
+Proof. exact (fun a => compile16_compiles_proved parser_recovers_builder_panics go_checks a max_ident_len_as_modelled). Qed.
 
 Theorem handed_out_definition_builds :
   forall a d, compile16 a = VCompiled d -> builder_valid d = true /\ wf a = true.
-Proof. exact (compile16_accepts_valid_proved parser_recovers_builder_panics). Qed.
+Proof. exact (compile16_accepts_valid_proved parser_recovers_builder_panics go_checks). Qed.
+
+(* "No nil error followed by a failing Build()" as a statement about the compiler model:
+     forall a, compile16 a <> VInvalid
+   It holds for an analyser that checks the two rules itself ... *)
+Theorem no_unbuildable_definition_when_analyser_checks :
+  forall r a, compile16_with r (PChecks true true) a <> VInvalid.
+Proof. exact compile16_never_invalid_proved. Qed.
+
+(* ... and is refuted for an analyser that lacks one of the checks - as the shipped one lacks both
+   (`go_checks`, read off the source by the translator; findings C16-F6, C16-F7): a view without
+   partition key group, and GRANT ... ON ALL VIEWS in a workspace without views, are handed to the
+   builder, which refuses them; replayed on the real compiler by
+   corpus/C16/f6_view_without_partition_key.json and f7_grant_all_views_none.json *)
+Definition a_view_no_pk : schema := [(Pkg "app1"%string [[(Ws "Ws1"%string false [] None [(ITable (Table "T"%string false (Some (QR "sys"%string "CDoc"%string)) [(TField (Fld "a"%string DInt32 false false None))])); (IProj (Proj "P"%string false false [(TrTab true false false false [(QR ""%string "T"%string)])] [(QR ""%string "V"%string)] false)); (IView (View "V"%string [(VField "c"%string DInt64 false); (VField "x"%string DInt32 false)] [] ["c"%string] (QR ""%string "P"%string)))])]])].
+Definition a_grant_no_views : schema := [(Pkg "app1"%string [[(Ws "Ws1"%string false [] None [(IRole "R"%string false); (IGrant (Grant false GAllViews (QR ""%string "R"%string)))])]])].
+
+Example unbuildable_definition_refuted_F6 :
+  compile16_with true (PChecks false true) a_view_no_pk = VInvalid /\ wf a_view_no_pk = false
+  /\ compile16_with true (PChecks true false) a_view_no_pk = VError.
+Proof. vm_compute. repeat split. Qed.
+
+Example unbuildable_definition_refuted_F7 :
+  compile16_with true (PChecks true false) a_grant_no_views = VInvalid /\ wf a_grant_no_views = false
+  /\ compile16_with true (PChecks false true) a_grant_no_views = VError.
+Proof. vm_compute. repeat split. Qed.
+
+(* INHERITS: `wf` is about reachability, not membership.  A well-formed schema's every table reaches a
+   system table along its INHERITS chain in finitely many steps, every workspace has a finite list of
+   ancestors ... *)
+Theorem wf_inherits_chains_end :
+  forall a, wf a = true -> forall p w, In_ws a p w ->
+  (exists l, ws_anc a (fuelw a) (p_name p) (w_inh w) = Some l)
+  /\ forall t, In (ITable t) (w_items w) ->
+     (exists b ls, Chain a (p_name p) t b ls)
+     /\ forall t', In t' (nested_tables t) -> t_inh t' <> None -> exists b ls, Chain a (p_name p) t' b ls.
+Proof. exact wf_chains_end_proved. Qed.
+
+(* ... so a schema in which a table / nested table / workspace merely REACHES an INHERITS cycle it is
+   not part of is not well-formed, exactly like one whose items are all on the cycle; the model's
+   verdict is Error (corpus/C16/cycle_*.json; the seeded mutation c16-1 turns these into a stack
+   overflow of the real compiler) *)
+Definition a_leaf_on_table_cycle : schema := [(Pkg "app1"%string [[(Ws "Ws1"%string false [] None [(ITable (Table "Cyc1"%string true (Some (QR "app1"%string "Cyc2"%string)) [])); (ITable (Table "Cyc2"%string true (Some (QR "app1"%string "Cyc1"%string)) [])); (ITable (Table "Leaf"%string false (Some (QR "app1"%string "Cyc1"%string)) []))])]])].
+Definition a_nested_on_table_cycle : schema := [(Pkg "app1"%string [[(Ws "Ws1"%string false [] None [(ITable (Table "Cyc1"%string true (Some (QR "app1"%string "Cyc2"%string)) [])); (ITable (Table "Cyc2"%string true (Some (QR "app1"%string "Cyc3"%string)) [])); (ITable (Table "Cyc3"%string true (Some (QR "app1"%string "Cyc1"%string)) [])); (ITable (Table "Doc"%string false (Some (QR "sys"%string "CDoc"%string)) [(TNested "cn"%string (Table "Nest"%string false (Some (QR "app1"%string "Cyc1"%string)) []))]))])]])].
+Definition a_leaf_on_workspace_cycle : schema := [(Pkg "app1"%string [[(Ws "Ws1"%string false [] None []); (Ws "WBase"%string true [] None []); (Ws "WCyc1"%string true [(QR "app1"%string "WCyc2"%string)] None []); (Ws "WCyc2"%string true [(QR "app1"%string "WCyc1"%string)] None []); (Ws "WLeaf"%string false [(QR "app1"%string "WBase"%string); (QR "app1"%string "WCyc1"%string)] None [])]])].
+
+Example reaching_an_inherits_cycle_is_not_wf :
+  wf a_leaf_on_table_cycle = false /\ compile16 a_leaf_on_table_cycle = VError
+  /\ chain a_leaf_on_table_cycle (fuel0 a_leaf_on_table_cycle) "app1"%string
+        (Table "Leaf"%string false (Some (QR "app1"%string "Cyc1"%string)) []) = None
+  /\ wf a_nested_on_table_cycle = false /\ compile16 a_nested_on_table_cycle = VError
+  /\ wf a_leaf_on_workspace_cycle = false /\ compile16 a_leaf_on_workspace_cycle = VError
+  /\ ws_anc a_leaf_on_workspace_cycle (fuelw a_leaf_on_workspace_cycle) "app1"%string [QR "app1"%string "WBase"%string; QR "app1"%string "WCyc1"%string] = None.
+Proof. vm_compute. repeat split. Qed.
 
 (* The guards of `compiled_definition_passes_validation` are needed, and before the repair of C16-F1
    (no recover: `compile16_with false`) leaving them was a panic: 101 UNIQUE constraints; a workspace
@@ -96,13 +149,13 @@ Definition a_uniques_100 : schema := [(Pkg "app1"%string [[(Ws "Ws1"%string fals
 
 Example unrecovered_panic_on_uniques :
   wf a_uniques_101 = true /\ lexical a_uniques_101 = true /\ no_unique_collision a_uniques_101 Go = true
-  /\ compile16_with false a_uniques_101 = VPanic /\ compile16 a_uniques_101 = VError
+  /\ compile16_with false go_checks a_uniques_101 = VPanic /\ compile16 a_uniques_101 = VError
   /\ bv_limits (compile_items a_uniques_101 Go) = false.
 Proof. vm_compute. repeat split. Qed.
 
 Example unrecovered_panic_on_name_length :
   wf a_ws_name_246 = true /\ lexical a_ws_name_246 = true /\ no_unique_collision a_ws_name_246 Go = true
-  /\ compile16_with false a_ws_name_246 = VPanic /\ compile16 a_ws_name_246 = VError
+  /\ compile16_with false go_checks a_ws_name_246 = VPanic /\ compile16 a_ws_name_246 = VError
   /\ gen_names_short (compile_items a_ws_name_246 Go) = false.
 Proof. vm_compute. repeat split. Qed.
 
@@ -128,6 +181,11 @@ Print Assumptions compiled_definition_passes_validation.
 Print Assumptions compiler_model_total.
 Print Assumptions compiler_model_compiles_within_guards.
 Print Assumptions handed_out_definition_builds.
+Print Assumptions no_unbuildable_definition_when_analyser_checks.
+Print Assumptions unbuildable_definition_refuted_F6.
+Print Assumptions unbuildable_definition_refuted_F7.
+Print Assumptions wf_inherits_chains_end.
+Print Assumptions reaching_an_inherits_cycle_is_not_wf.
 Print Assumptions unrecovered_panic_on_uniques.
 Print Assumptions unrecovered_panic_on_name_length.
 Print Assumptions boundary_nonvacuous.
